@@ -455,3 +455,8 @@ func TestParseIdempotent(t *testing.T) {
 }
 
 func validUTF8(s string) bool { return strings.ToValidUTF8(s, "\x00") == s }
+
+// FuzzGenParse: the structured generator driven by Go's coverage-guided fuzzer (thorough tier).
+func FuzzGenParse(f *testing.F) {
+	h.FuzzSub(f, h.Sub[parseCase]{Prop: "C09", Name: "parse-renderings", Gen: genParse, Check: checkParse})
+}
